@@ -254,6 +254,32 @@ def case_random_block(case):
                     bad.append({"what": "conversion after an in-place element change returns stale values", "how": how, "A": A, "B": B,
                                 "dim": d3, "x": x, "got": float(y)})
                     break
+            # the result of a conversion is a new quantity: editing it must not change the source (also when the target
+            # system is the source's own), and editing the source afterwards must not change the result
+            for tgt_sys in (A, B):
+                src_arr = U.UnitArray(list(vals), U.Units(mk_sys(U, A), mk_dim(U, d3)))
+                before = src_arr.value.tobytes()
+                for fname, tgt in target_forms(U, tgt_sys, d3, r).items():
+                    res_arr = src_arr.convert(tgt)
+                    res_before = res_arr.value.copy()
+                    res_arr.value[0] = res_arr.value[0] * 3 + 1
+                    res_arr.set_at(len(vals) - 1, U.UnitValue(12.5, res_arr.units))
+                    stats["result_independence_checks"] = stats.get("result_independence_checks", 0) + 1
+                    if src_arr.value.tobytes() != before:
+                        bad.append({"what": "editing the RESULT of a conversion changed the source array", "form": fname,
+                                    "A": A, "target": tgt_sys, "dim": d3, "same_system": tgt_sys == A})
+                        break
+                    res2 = src_arr.convert(tgt)
+                    src_arr.value[0] += 0.0
+                    if res2.value.tobytes() != res_before.tobytes():
+                        bad.append({"what": "a second conversion of an unchanged source differs from the first", "form": fname,
+                                    "A": A, "target": tgt_sys, "dim": d3})
+                        break
+            qv = U.UnitValue(val, U.Units(mk_sys(U, A), mk_dim(U, d3)))
+            qc = qv.convert(mk_sys(U, A))
+            qc.value = 77.0
+            if qv.value.hex() != float(val).hex():
+                bad.append({"what": "editing the RESULT of a scalar conversion changed the source value", "A": A, "dim": d3})
             # convert_value, the functional form
             cv = U.convert_value(val, mk_sys(U, A), mk_sys(U, B), mk_dim(U, d3))
             if not close(cv, exactB):
